@@ -24,7 +24,7 @@ DECIMAL_GRID = [0.1, 0.2, 0.3, 0.7, 2.5, 5.0]
 @st.composite
 def truth_records(draw, min_storms=4, max_storms=10, noise=False,
                   dts=None, curve_len=None, et_varying=True, fixed=None,
-                  top_range=(-200, 800)):
+                  top_range=(-200, 800), gaps=False):
     fixed = fixed or {}
     dt = fixed.get('dt') or draw(st.sampled_from(dts or gen_records.STEPS))
     tz = fixed.get('tz') or draw(st.sampled_from(gen_records.ZONES))
@@ -133,8 +133,17 @@ def truth_records(draw, min_storms=4, max_storms=10, noise=False,
                 z[i] += draw(st.sampled_from([0, 0, 1, -1]))
     et_vals = ([draw(st.integers(0, 32)) / 64.0 for _ in range(7)]
                if et_varying else [0.125])
+    removed = set()
+    if gaps and draw(st.integers(0, 2)) == 0:
+        # the logger skips one or two readings inside a dry spell: the record
+        # splits into two gap-free stretches, the truth is untouched
+        long_spells = [(a, b) for a, b, _ in intervals if b - a >= 4]
+        if long_spells:
+            a, b = draw(st.sampled_from(long_spells))
+            first = draw(st.integers(a + 1, b - 2))
+            removed = set(range(first, first + draw(st.integers(1, 2))))
     case = gen_records.assemble(
-        dt, t0, tz, rain, z, 0, [], [], set(), et_vals, s, j,
+        dt, t0, tz, rain, z, 0, [], [], removed, et_vals, s, j,
         {'gen': 'truth', 'thr_units': thr_units})
     case['truth'] = {'r_units': r, 'sy': sy, 'recessions': intervals,
                      'rises': rises, 'noise': bool(noise), 'k_s': k_s}
